@@ -4,7 +4,7 @@ import ast
 
 from ..program import AnalysisError, walk_local, dotted
 from ..analysis import Spec, src
-from ..rules import (canon, substitute_locals, guard_paths, literal_text, GWF, EXC, mpt, need_func, stores_to, is_const,
+from ..rules import (cond_tree, canon, substitute_locals, guard_paths, literal_text, GWF, EXC, mpt, need_func, stores_to, is_const,
                      parent_map, raise_class)
 from . import common
 from .c12 import _first_exit
@@ -128,29 +128,51 @@ def job_equality(prog, an, rep):
                           '__eq__: duplicates pile up, or identity is used' %
                           k.name)
             continue
-        rets = [r for r in walk_local(eq.node, include_root=False)
-                if isinstance(r, ast.Return) and r.value is not None]
-        ok = len(rets) == 1 and isinstance(rets[0].value, ast.BoolOp) and \
-            isinstance(rets[0].value.op, ast.And)
+        # the answer as one boolean expression (guard clauses and a final
+        # return read as the conjunction they are), then its atoms
+        import copy
+        from ..inline import _decision_expression, _as_expression, \
+            _body_wo_doc
+        body = copy.deepcopy(_body_wo_doc(eq.node))
+        e = _decision_expression(body) or _as_expression(body)
+        t = cond_tree(e, eq) if e is not None else None
+        while t is not None and t[0] == 'atom' and \
+                t[1].startswith('bool(') and t[1].endswith(')'):
+            t = cond_tree(ast.parse(t[1][5:-1], mode='eval').body, eq)
+        def flat(x):
+            while x[0] == 'not' and x[1][0] == 'not':
+                x = x[1][1]
+            if x[0] in ('and', 'or'):
+                kids = []
+                for y in x[1]:
+                    y = flat(y)
+                    kids += y[1] if y[0] == x[0] else [y]
+                return (x[0], kids)
+            return x
+        t = flat(t) if t is not None else None
+        atoms = None
+        if t is not None and t[0] == 'and' and \
+                all(x[0] == 'atom' for x in t[1]):
+            atoms = [x[1] for x in t[1]]
+        elif t is not None and t[0] == 'atom':
+            atoms = [t[1]]
+        ok = atoms is not None
         chains = set()
         inst_ok = False
         if ok:
             other = eq.params[1]
-            for v in rets[0].value.values:
-                if isinstance(v, ast.Call) and src(v.func) == 'isinstance' \
-                        and src(v.args[0]) == other and \
-                        src(v.args[1]) == k.name:
+            for a_ in atoms:
+                if a_ == 'isinstance(%s, %s)' % (other, k.name):
                     inst_ok = True
-                elif isinstance(v, ast.Compare) and len(v.ops) == 1 and \
-                        isinstance(v.ops[0], ast.Eq):
-                    a, b = src(v.left), src(v.comparators[0])
-                    if a.startswith('self.') and b.startswith(other + '.') \
-                            and a[5:] == b[len(other) + 1:]:
-                        chains.add(a[5:])
-                    else:
-                        chains.add('?' + a + '==' + b)
+                    continue
+                sides = a_.split(' == ')
+                mine = [x[5:] for x in sides if x.startswith('self.')]
+                theirs = [x[len(other) + 1:] for x in sides
+                          if x.startswith(other + '.')]
+                if len(sides) == 2 and len(mine) == 1 and mine == theirs:
+                    chains.add(mine[0])
                 else:
-                    chains.add('?' + src(v))
+                    chains.add('?' + a_)
         rep.check(ok and inst_ok and chains == want[k.name], R,
                   '%s.__eq__: same class, same repository, same %s' % (
                       k.name, 'pull request id' if k.name == 'PullRequestJob'
